@@ -177,6 +177,7 @@ class Ref:
             for gid in sorted(gprtree.genes(x["rule"])):
                 if gid in self.genes and not self.gene_reactions(gid):
                     del self.genes[gid]
+                    self._drop_member("Gene", gid)
 
     def _remove_met_nd(self, mid):
         """non-destructive metabolite removal"""
